@@ -74,7 +74,18 @@ def evaluate(case, out):
             for cid, con in contests.items():
                 con.sample_size = sizes[cid]
             out.cls("after-an-earlier-draw")
-        got = CVR.consistent_sampling(cvrs, contests)
+        if case["seed"] % 2 == 1:
+            # drawn in two steps: first some contests at full size and the others at a third, then - handing the first
+            # selection back - the full sizes; the result is the selection for the full sizes
+            for k, (cid, con) in enumerate(contests.items()):
+                con.sample_size = sizes[cid] if (k + case["seed"] // 2) % 2 == 0 else sizes[cid] // 3
+            first = CVR.consistent_sampling(cvrs, contests)
+            for cid, con in contests.items():
+                con.sample_size = sizes[cid]
+            got = CVR.consistent_sampling(cvrs, contests, sampled_cvr_indices=[int(i) for i in first])
+            out.cls("drawn-in-two-steps")
+        else:
+            got = CVR.consistent_sampling(cvrs, contests)
     except Exception as e:  # noqa
         out.lib_exception("consistent_sampling", e)
         return
